@@ -338,7 +338,19 @@ pub fn replay(case: &Value, _kf: &KnownFindings) -> Result<(), Failure> {
 
 pub fn history_strategy() -> impl Strategy<Value = History> {
     // C08's histories (pending answers of every length, owed ACKs) with counters placed at boundaries
-    (c08::history_strategy(), prop_oneof![Just(0u32), 0xFFFDu32..=0x10001, Just(0x7FFF_FFFFu32), 0xFFFF_FFF0u32..=0xFFFF_FFFB], prop_oneof![Just(None), (0xFFF0u32..=0x1000F).prop_map(Some), Just(Some(0xFFFF_FFF0u32)), any::<u32>().prop_map(Some)], proptest::collection::vec((any::<u16>(), (1u16..70).prop_map(Step::Silence)), 0..2)).prop_map(|(mut h, up, down, extra)| {
+    (c08::history_strategy(), prop_oneof![Just(0u32), 0xFFFDu32..=0x10001, Just(0x7FFF_FFFFu32), 0xFFFF_FFF0u32..=0xFFFF_FFFB], prop_oneof![Just(None), (0xFFF0u32..=0x1000F).prop_map(Some), Just(Some(0xFFFF_FFF0u32)), any::<u32>().prop_map(Some)], proptest::collection::vec((any::<u16>(), (1u16..70).prop_map(Step::Silence)), 0..2), proptest::collection::vec((any::<u16>(), 0u8..5), 0..2)).prop_map(|(mut h, up, down, extra, faults)| {
+        // a radio fault at the transmission or at one of the next radio calls of some sends: what the device has
+        // learnt by then (the counter is used up) must be in the document it persists
+        let sends: Vec<usize> = h.steps.iter().enumerate().filter(|(_, s)| matches!(s, Step::Send { .. })).map(|(i, _)| i).collect();
+        for (pos, k) in faults {
+            if sends.is_empty() {
+                break;
+            }
+            let i = sends[(pos as usize * sends.len()) >> 16];
+            if let Step::Send { rx, .. } = &mut h.steps[i] {
+                rx.fault_at = Some(k);
+            }
+        }
         if matches!(h.activation, Activation::Abp { .. }) {
             h.activation = Activation::Abp { fcnt_up: up, fcnt_down: down };
         }
